@@ -10,6 +10,42 @@ ALL = [f"C{i:02d}" for i in range(1, 20)]
 
 # id -> (engine, category, level text, level note, technique, design_ref)
 CHECKS = {
+ "C07": ("headerfs component driver", "fault_enumeration",
+   "Both real header stores (one shared bbolt DB) are driven by seeded histories of appends / rollbacks / reopens against an independent slice model with EVERY read method compared after every call; for a subset of histories every single-fault position (4 short-write kinds, seek/stat/truncate/sync failures on either flat file, DB update not run / rolled back) of every append and rollback is enumerated; a failed append must leave every read equal to the pre-call model and the next append must work.",
+   "Single transient faults only; caller contract of the real callers (filter store rolled back before block store, filter appends only for stored blocks); behaviour after a failed ROLLBACK is recorded, not asserted (the statement covers failed appends).",
+   "runtime monitoring: reference-model comparison of every read after every operation + exhaustive single-fault injection at the File/DB boundary", "5/C07"),
+ "C09": ("rescan component driver", "exploration",
+   "The real NewRescan runs over a harness ChainSource backed by a generated block tree and a real blockntfns.SubscriptionManager; chain growth / reorganisations are injected at every phase (before start, mid catch-up via gated ChainSource calls, while blocks wait for retry, when current), with scripted filter/block fetch failures and Update/Rewind at random moments; one ordered callback log is checked by a walk oracle (each connect is the child of the current block, each disconnect names it) and a relevant-transaction oracle (delivered set == txs paying then-watched scripts / spending then-watched outpoints).",
+   "Component level (ChainSource boundary); an update concurrent with a callback keeps both watch states acceptable; rescans that end with an error are judged only on callbacks already delivered.",
+   "runtime monitoring: ordered callback log vs chain-walk and relevant-tx reference model, with gate-based schedule control", "5/C09"),
+ "C10": ("utxo scanner component driver", "exploration",
+   "The real UtxoScanner (wired like production through the verif export) runs over a gated ChainSource: requests and new blocks arrive at chosen points of a running batch, fetches fail at chosen calls, Stop at random points; every request is read by two goroutines; answers are compared with a literal scan of the served chain for some tip between enqueue and delivery; 'no caller left waiting' is decided in callback counts and goroutine dumps, not seconds.",
+   "Double-spend material added to served blocks is not consensus-valid (needed to make 'earliest spend' observable); start above tip and out-of-range index mean 'empty report'.",
+   "runtime monitoring: per-request result vs reference scan, exactly-once and no-lost-request monitors with gate-controlled schedules", "5/C10"),
+ "C11": ("blockntfns component driver", "exploration",
+   "A real SubscriptionManager over a harness NotificationSource with an unbuffered channel; events carry unique ids; the harness records one serialised order of hand-overs and backlog calls (the registration point); each subscriber's stream must be a prefix of backlog ++ later events (full when not cancelled), channels closed after Cancel/Stop, stalled subscribers do not delay others; general schedules plus a stop-storm family aimed at the shutdown race.",
+   "Scheduler-dependent: a run observes the interleavings the Go scheduler produced (GOMAXPROCS varied per schedule).",
+   "runtime monitoring: per-subscriber stream vs reference stream from a serialised hand-over log", "5/C11"),
+ "C12": ("query component driver", "exploration",
+   "The real WorkManager + Worker + peer ranking over scripted query.Peer implementations (answer, partial progress, silence, late answer, disconnect mid-job, reconnect under the same address), 1-4 batches in flight with every option; per batch exactly one verdict, nil only if every request finished, errors only with their cause present, re-issue and ranking rules, and after every scenario probe batches + Stop must complete (dispatcher not wedged; decided with goroutine samples).",
+   "Real worker timeouts (2 s doubling) bound the number of forced timeouts per scenario; timer-caused verdicts are only excluded when elapsed time is clearly below the timer.",
+   "runtime monitoring: verdict/handler/peer event log vs batch-outcome reference rules", "5/C12"),
+ "C13": ("banman component driver", "exploration",
+   "STORE half: the real banman store over a real bbolt DB under 500-op sequences of ban/unban/status/reopen over 25 addresses x 9 spellings x family-length masks x all reasons x clock-distant durations, against a model keyed by the canonical prefix; plus a small thorough-only set of real 2 s bans judged only clearly inside/outside the ban. ENFORCEMENT half (peers lacking services or serving provably invalid data are banned, disconnected and not re-admitted) is observed in the network simulation (added to this program when the L2 part lands).",
+   "Mixed-length masks are out of scope (the client never produces them); sub-second expiry truncation not asserted.",
+   "runtime monitoring: model comparison of Status over all spellings after every operation", "5/C13"),
+ "C14": ("chainimport component driver", "fault_enumeration",
+   "The real headers import runs on real stores (pre-filled to chosen heights) over generated PoW-valid files: every start-height relation, length, batch size, overlap agreement/disagreement position, invalid header position (incl. index 0), 20 container faults, and the k-th store write failing; both stores are read back in full after Import and after a second Import and compared with 'previous contents extended by the file' (success) or the consistency conditions (failure).",
+   "Filter-header overlap comparison is sampled by design in the code (counted, not asserted).",
+   "runtime monitoring: full store read-back vs file contents + reference header validator, with injected write failures", "5/C14"),
+ "C15": ("pushtx component driver", "exploration",
+   "The real Broadcaster with a gated Broadcast callback and an unbuffered block-event channel; real tx DAGs (chains, diamonds, fan-in/out) with scripted per-tx outcomes; one serialised history of calls, hand-overs and callback invocations; rounds identified per rebroadcast goroutine; rules: membership, parents before children, nothing after confirmation / rejection, completeness after provably idle triggers, one round at a time, and Broadcast/MarkAsConfirmed/Stop return in every schedule (incl. after Stop).",
+   "The sendTransaction verdict rule (peer replies) needs the network simulation and is not covered by this component check.",
+   "runtime monitoring: serialised call/callback history vs rebroadcast reference rules; blocked-forever decided by goroutine dumps", "5/C15"),
+ "C16": ("lru component driver", "exploration",
+   "(a) sequential random histories vs a reference LRU with values whose Size() errors; (b) EXHAUSTIVE enumeration of every release order of the verif yield points for every pair (and selected triples) of operations after random prefixes, each schedule checked for linearizability (own search cross-checked by porcupine) and quiescent invariants; (c) free-running stress windows checked by porcupine plus a walk hammer.",
+   "Yield points sit outside the mutex only; exhaustive refers to schedules per (prefix, tuple) at yield-point granularity.",
+   "runtime monitoring: linearizability checking of recorded histories (porcupine) + invariant checks under an enumerating yield-point scheduler", "5/C16"),
  "C01": ("L1 block-manager driver", "exploration",
    "Held on every handled message of the explored sessions: the real blockManager over real on-disk header stores is fed seeded hostile header/inv/peer-event sessions; after EVERY message the whole stored chain is re-read through the public store API and validated by an independent reference validator (linkage, PoW, exact retarget bits, MTP, future limit, checkpoints) and by-hash/by-height/tip/locator answers are cross-checked. Exploration is the right level: the quantifier is over unbounded message sequences; reach comes from generated trees, adversarial batches and many seeds.",
    "Reference validator cross-checked against btcd in the harness self-test; real network timing is covered by C04, not here; paths the sessions never drive are not covered.",
@@ -59,6 +95,8 @@ def main():
              "kind_free_text": "real blockManager + real headerfs stores, scripted network, synchronous message-at-a-time driving, store read-back after every step"},
             {"name": "chaingen + ref", "path": "harness/internal/chaingen", "serves_properties": ALL,
              "kind_free_text": "seeded block-tree generator (PoW, retargeting presets, txs, BIP158 filters) and independent reference validators"},
+            {"name": "component drivers", "path": "harness/internal/c07 c09 c10 c11 c12 c13 c14 c15 c16", "serves_properties": ["C07","C09","C10","C11","C12","C13","C14","C15","C16"],
+             "kind_free_text": "exported constructors of one package driven directly with fakes at its boundary and a reference model as oracle"},
             {"name": "netsim", "path": "harness/internal/netsim", "serves_properties": ["C01", "C02", "C03", "C19"],
              "kind_free_text": "buffered in-memory connections, wire-level scripted peers (honest / liar behaviours), event log"},
         ],
